@@ -114,6 +114,7 @@ pub fn model(tier: Tier, world: &str) -> Hist {
     alpha.max_clock_devs = 1;
     alpha.clock_dts = vec![1, 31_536_000];
     alpha.rich_amounts = true;
+    alpha.flash_wrap = true;
     alpha.prune = true;
     alpha.extra_amounts = vec![2, 149_999_999, 150_000_000, 150_000_001];
     Hist { w, roots, alpha, oracles: vec![Box::new(CapsOracle), Box::new(UpToLimitProbe)] }
